@@ -61,6 +61,20 @@ def gen(rng, n):
     return out
 
 
+def stall_sweep(tier):
+    """to_sync_iter: the consuming thread and the worker thread in turn are descheduled for a while at their k-th
+    source line of the bridge, for every k; to_async_iter: the worker thread only (the consumer is the event loop)."""
+    out = []
+    for which, kind, thrs in (('to_sync', 'agen', ['L1', 'P1-1', 'P2-1']), ('to_async', 'gen', ['P1-1', 'P2-1'])):
+        for fail_at in (None, 2, 4):
+            for thr in thrs:
+                for k in range(1, 31 if tier == 'quick' else 71):
+                    out.append({'which': which, 'src': {'kind': kind, 'xs': ['a', 'n', 'z', 'b'], 'fail_at': fail_at,
+                                                        'exccls': 'runtime'},
+                                'stalls': {thr: [k, 3.0]}, 'strategy': {'kind': 'replay', 'prefix': []}})
+    return out
+
+
 def nontrivial(sc, r):
     return len(sc['src']['xs']) >= 1
 
@@ -74,6 +88,8 @@ def run(ctx):
     from harness.components import bridgemodel
     bridgemodel.model_check(ctx)
     executed = list(ctx.run_and_validate(DRIVER, COMP, TRACE, systematic(), 'systematic', nontrivial=nontrivial,
+                                         known_match=known_match))
+    executed.extend(ctx.run_and_validate(DRIVER, COMP, TRACE, stall_sweep(ctx.tier), 'stall_sweep', nontrivial=nontrivial,
                                          known_match=known_match))
     n = 2500 if ctx.tier == 'quick' else 50000
     for off in range(0, n, 6000):
